@@ -188,6 +188,10 @@ type ProxyOpts struct {
 	SignerKeyPEM    string
 	TemplateVars    map[string]string // nil = read the process environment like production
 	UpstreamTimeout time.Duration
+	// ProviderExternal / ProviderInternal, when set, point the proxy at a real authenticator instead
+	// of the scripted one (external = what browsers are sent to, internal = where back-channel calls go).
+	ProviderExternal string
+	ProviderInternal string
 }
 
 type ProxyEnv struct {
@@ -233,6 +237,10 @@ func NewProxyEnv(o ProxyOpts) (*ProxyEnv, error) {
 	}
 	c := proxy.DefaultProxyConfig()
 	c.ProviderConfig.ProviderURLConfig.External = e.Auth.Server.URL
+	if o.ProviderExternal != "" {
+		c.ProviderConfig.ProviderURLConfig.External = o.ProviderExternal
+		c.ProviderConfig.ProviderURLConfig.Internal = o.ProviderInternal
+	}
 	c.ClientConfig.ID = ClientID
 	c.ClientConfig.Secret = ClientSecret
 	c.SessionConfig.CookieConfig.Secret = base64.StdEncoding.EncodeToString(CookieSecret)
